@@ -33,7 +33,7 @@ HBIN = os.path.join(HARNESS, "target", "debug", "harness")
 ALLOWED_AXIOMS = {"propext", "Classical.choice", "Quot.sound"}
 
 sys.path.insert(0, os.path.join(VERIF, "tools"))
-from props import PROPS, PRIMS, TRUSTED_BASE, LOOM, INJECT, INJECT_BUDGET, INJECT_RANDOM, INJECT_SEARCH  # noqa: E402
+from props import PROPS, PRIMS, TRUSTED_BASE, LOOM, INJECT, INJECT_BUDGET, INJECT_RANDOM, INJECT_SEARCH, INJECT_SCHED  # noqa: E402
 
 ENV = dict(os.environ, CARGO_NET_OFFLINE="true")
 
@@ -66,9 +66,9 @@ def run_inject(prim, runs, prop):
     """all runs of the budget, merged; a run is (depth, inner, post) or ("random", prim', seed, count, maxdepth)"""
     tot = None
     for run in runs:
-        if run[0] == "random":
+        if run[0] in ("random", "sched"):
             depth, inner, post = run, None, None
-            r = run_inject1(prim, None, None, None, prop, random=run[1:])
+            r = run_inject1(prim, None, None, None, prop, random=run)
         else:
             (depth, inner, post) = run
             r = run_inject1(prim, depth, inner, post, prop)
@@ -99,7 +99,8 @@ def run_inject1(prim, depth, inner, post, prop, random=None):
     fr = os.path.join(BUILD, "inject_rej_%s.txt" % tag)
     fs = os.path.join(BUILD, "inject_stat_%s.txt" % tag)
     if random:
-        gen = "%s random %s %d %d %d" % (IBIN, random[0], random[1], random[2], random[3])
+        # ("random", prim', seed, count, maxdepth) or ("sched", prim', calls, preemptions, steps)
+        gen = "%s %s %s %d %d %d" % (IBIN, random[0], random[1], random[2], random[3], random[4])
     else:
         gen = "%s %s %d %d %d" % (IBIN, prim, depth, inner, post)
     cmd = ("set -o pipefail; %s 2>%s | tee >(grep ' V:' | awk 'NR<=200' > %s) | %s > %s"
@@ -119,7 +120,7 @@ def run_inject1(prim, depth, inner, post, prop, random=None):
         rc_, err_ = 124, (err_ or "") + "\ntimeout: the injection pipeline was killed after 3000 s"
     # the process substitution may still be flushing
     time.sleep(0.2)
-    res = {"prim": random[0] if random else prim, "depth": depth, "inner": inner, "s": round(time.time() - t0, 1), "rc": rc_,
+    res = {"prim": random[1] if random else prim, "depth": depth, "inner": inner, "s": round(time.time() - t0, 1), "rc": rc_,
            "scenarios": 0, "accepted": 0, "rejected": [], "violations": [], "stderr": err_[-2000:]}
     try:
         st = open(fs).read()
@@ -677,7 +678,8 @@ def check(prop, tier, seed):
                 violations.append((rp, "no-failing-input-found"))
                 continue
             rc_, rd_ = INJECT_RANDOM[tier]
-            r = run_inject(prim, list(INJECT_BUDGET[tier][prim]) + [("random", prim, seed, rc_, rd_)], prop)
+            r = run_inject(prim, list(INJECT_BUDGET[tier][prim]) + [("random", prim, seed, rc_, rd_)]
+                           + [("sched",) + tuple(x) for x in INJECT_SCHED[tier][prim]], prop)
             cov["preemption_injection"][prim] = {k: r[k] for k in ("runs", "scenarios", "accepted", "s")}
             total_hist += r["scenarios"]
             def mine_of(r):
